@@ -210,6 +210,14 @@ class XExprEvaluator(ModelVisitor):
             if not self.is_x:
                 field.field_l[int(self.val)].accept(self)
             
+    def visit_expr_indexed_fieldref(self, e):
+        # Whether the path can be followed now (no random subscript on it)
+        e.root.accept(self)
+        if not self.is_x:
+            # The value of the field the reference names (not of whichever
+            # field of the root happens to be visited last)
+            e.get_target().accept(self)
+
     def visit_expr_in(self, e):
         e.lhs.accept(self)
         
